@@ -195,3 +195,34 @@ def build_with_lib(bits_tx, rtx, witness_ser):
     txouts = [bits_tx.txout(o["value"], o["script"]) for o in rtx["outs"]]
     wits = [witness_ser(i["witness"]) for i in rtx["ins"]] if rtx["segwit"] else []
     return bits_tx.tx(txins, txouts, version=rtx["version"], locktime=rtx["locktime"], script_witnesses=wits)
+
+
+COINBASE_TAILS = [
+    b"", b"bits", b"/pool/", bytes.fromhex("fabe6d6d") + bytes(range(32)) + bytes.fromhex("0100000000000000"),  # merged-mining marker
+    bytes.fromhex("c0ffee"), bytes([0xBB, 0xFE, 0xC0, 0xFF]), b"tagL", bytes.fromhex("4c"), bytes.fromhex("4d00"), bytes.fromhex("08") + bytes(range(200, 208)),
+]
+
+
+@st.composite
+def coinbase_case(draw):
+    """A coinbase-shaped transaction: one input spending the null outpoint whose script is the BIP34 height push followed
+    by arbitrary miner data (extranonce bytes, tags, the merged-mining marker - not a script anyone executes), with or
+    without the BIP141 commitment output and reserved-value witness."""
+    h = draw(st.sampled_from([0, 1, 16, 17, 127, 128, 300, 70000, 840000]) | st.integers(0, 2**31 - 1))
+    if h == 0:
+        push = b"\x00"
+    elif h <= 16:
+        push = bytes([0x50 + h])
+    else:
+        n = (h.bit_length() + 8) // 8
+        push = bytes([n]) + h.to_bytes(n, "little")
+    script = (push + draw(st.sampled_from(COINBASE_TAILS) | st.binary(max_size=40)))[:100]
+    segwit = draw(st.booleans())
+    outs = [{"value": draw(st.sampled_from(VALUES)), "script": draw(st.binary(max_size=34)).hex()}]
+    if segwit:
+        outs.append({"value": 0, "script": (bytes.fromhex("6a24aa21a9ed") + draw(st.binary(min_size=32, max_size=32))).hex()})
+    return {
+        "version": draw(st.sampled_from([1, 2])), "locktime": 0, "segwit": segwit,
+        "ins": [{"txid": "00" * 32, "vout": 0xFFFFFFFF, "script": script.hex(), "sequence": 0xFFFFFFFF, "witness": ["00" * 32] if segwit else []}],
+        "outs": outs,
+    }
